@@ -224,11 +224,11 @@ func design(rep *mbt.Report, tier string) {
 	rep.Extra["design_level_tlc"] = outcome
 }
 
-var reVec = regexp.MustCompile(`<<"VEC", (\d+), "(\w+)", (TRUE|FALSE), (-?\d+), (\d+), (\d+), (\d+), (\d+), (\d+), (\d+)>>`)
+var reVec = regexp.MustCompile(`<<\s*"VEC",\s*(\d+),\s*"(\w+)",\s*(TRUE|FALSE),\s*(-?\d+),\s*(\d+),\s*(\d+),\s*(\d+),\s*(\d+),\s*(\d+),\s*(\d+)\s*>>`)
 var reBad = regexp.MustCompile(`<<\s*"BADRUN",\s*"(\w+)",\s*\{([^}]*)\},\s*(\d+)\s*>>`)
 
 type vector struct {
-	b                        behaviour
+	b                         behaviour
 	n, errAt, calls, dlen, sw int
 }
 
